@@ -942,17 +942,22 @@ def level_grid(inp, mask_id, sn, full=False):
                 ("%s.native" % who, lambda G, who=who: _structure(_get(G, who).native)),
                 ("%s.is_uniform" % who, lambda G, who=who: _get(G, who).is_uniform),
                 ("%s.shape_native_scaled_interior" % who, lambda G, who=who: _get(G, who).shape_native_scaled_interior)]
-        if not sn:
-            obs += [("%s.is_uniform (own contents)" % who, lambda G, who=who: _is_uniform_spec(_get(G, who)))]
+        obs += [("%s.is_uniform (own contents)" % who, lambda G, who=who: _is_uniform_spec(_get(G, who)))]
     return build, ops, obs
 
 
 def _is_uniform_spec(o):
-    """independent reference for Grid2D.is_uniform from the object's OWN contents (slim [n,2] storage), as documented:
+    """independent reference for Grid2D.is_uniform from the object's OWN contents (slim [n,2] or native [H,W,2] storage), as documented:
     every non-zero step between consecutive y coordinates equals the y pixel scale pixel_scales[0] (tolerance 1e-8)"""
     a = np.asarray(hx.unwrap(o))
-    if a.ndim != 2:
-        raise LookupError("not a slim grid")
+    if a.ndim == 3:
+        # natively stored [H,W,2]: the grid's coordinates are the entries at the unmasked pixels, in row-major order
+        mk = np.array(hx.unwrap(o.mask), dtype=bool)
+        if mk.shape != a.shape[:2]:
+            raise LookupError("contents do not match the mask")
+        a = np.array([[a[p][0], a[p][1]] for p in _pos(mk)], dtype=object).reshape(-1, 2)
+    elif a.ndim != 2:
+        raise LookupError("not a grid")
     ps = o.pixel_scales[0]
     ok = True
     for i in range(a.shape[0] - 1):
